@@ -70,7 +70,7 @@ def pool_group(name, sc, seed, variant, encs):
             u = np.asarray(u, dtype=float)
             obs.append((ename, u[0], int(np.asarray(q)[0])))
         finite = [abs(v) for o in obs for v in o[1] if np.isfinite(v)]
-        scale = max(max(finite), 1e-9) if finite else 1.0
+        scale = max(max(finite), 1e-6) if finite else 1.0
         events = [{"ev": "Obs", "name": n_, "vals": [[j + 1, _enc(v, scale)] for j, v in enumerate(row)],
                    "sel": sel + 1, "samekeys": True, "cmpsel": True} for n_, row, sel in obs]
     except Exception as ex:
